@@ -313,3 +313,144 @@ End Interp2D.
 Arguments state2 T : clear implicits.
 Arguments op2 T : clear implicits.
 Arguments out2 T : clear implicits.
+
+(** ** The constructors (every overload, with the unit arguments x_dim / y_dim / f_dim).
+    The unit arguments enter the TABLES only (a factor > 0 multiplies every abscissa / function value,
+    anything else — the default -1.0 included — leaves them alone); the members that the queries
+    read besides the tables start as prefactor(1.0), jLast(0), correlated_calls(false), whatever the
+    unit arguments are.  [domain] is the public data member {x_values[0], x_values[N-1]} (after the
+    unit scaling).  The Steffen coefficients computed from the scaled tables are the subject of C01. *)
+Section Construct.
+Context {T : Type} (Ops : NumOps T).
+
+(** the default argument of x_dim, y_dim, f_dim: -1.0 *)
+Definition dflt_dim : T := nneg Ops (n1 Ops).
+
+(** if(dim > 0.0) for(i ...) values[i] *= dim; *)
+Definition scale_units (dim : T) (l : list T) : list T :=
+  if ngtb Ops dim (n0 Ops) then map (fun v => nmul Ops v dim) l else l.
+
+(** for(i = 1; i < N; i++) if(x_values[i] <= x_values[i - 1]) exit *)
+Fixpoint strictly_increasing (l : list T) : bool :=
+  match l with
+  | a :: r => match r with
+              | b :: _ => if nleb Ops b a then false else strictly_increasing r
+              | [] => true
+              end
+  | [] => true
+  end.
+
+Record object1 : Type := mkObject1 {
+  o_xs : list T;          (* x_values *)
+  o_fs : list T;          (* function_values *)
+  o_dom : T * T;          (* domain *)
+  o_state : state T }.    (* jLast, correlated_calls, prefactor *)
+
+(** Interpolation(arg_values, func_values, x_dim, f_dim) *)
+Definition construct1 (xs fs : list T) (x_dim f_dim : T) : res object1 :=
+  if negb (Nat.eqb (length xs) (length fs)) then Exit
+  else if Nat.ltb (length xs) 2 then Exit
+  else if negb (strictly_increasing xs) then Exit
+  else
+    let xs' := scale_units x_dim xs in
+    let fs' := scale_units f_dim fs in
+    Ok (mkObject1 xs' fs' (nth0 Ops xs' 0, nth0 Ops xs' (length xs - 1)) (init Ops)).
+
+(** Interpolation(data, x_dim, f_dim): rows (x, f), then *this = Interpolation(x, f, x_dim, f_dim) *)
+Fixpoint split_rows2 (data : list (list T)) : res (list T * list T) :=
+  match data with
+  | [] => Ok ([], [])
+  | r :: rest =>
+      match r with
+      | [x; f] => let* xf := split_rows2 rest in Ok (x :: fst xf, f :: snd xf)
+      | _ => Exit
+      end
+  end.
+Definition construct1_rows (data : list (list T)) (x_dim f_dim : T) : res object1 :=
+  let* xf := split_rows2 data in construct1 (fst xf) (snd xf) x_dim f_dim.
+
+(** Interpolation(): the table {-1,0,1} -> {0,0,0} *)
+Definition construct1_default : res object1 :=
+  construct1 [nneg Ops (n1 Ops); n0 Ops; n1 Ops] [n0 Ops; n0 Ops; n0 Ops] dflt_dim dflt_dim.
+
+Record object2 : Type := mkObject2 {
+  o2_xs : list T; o2_ys : list T; o2_f : list (list T);
+  o2_dom : (T * T) * (T * T);      (* domain = {x_int.domain, y_int.domain} *)
+  o2_state : state2 T }.
+
+(** Interpolation_2D(x_val, y_val, func_values, x_dim, y_dim, f_dim): dimension check, unit scaling of
+    the three tables, prefactor(1.0), x_int = Interpolation(x_values, zeros), y_int likewise *)
+Definition construct2 (xs ys : list T) (f : list (list T)) (x_dim y_dim f_dim : T) : res object2 :=
+  let Nx := length xs in
+  let Ny := length ys in
+  if negb (Nat.eqb (length f) Nx && forallb (fun r => Nat.eqb (length r) Ny) f) then Exit
+  else
+    let xs' := scale_units x_dim xs in
+    let ys' := scale_units y_dim ys in
+    let f' := if ngtb Ops f_dim (n0 Ops) then map (map (fun v => nmul Ops v f_dim)) f else f in
+    let* xi := construct1 xs' (repeat (n0 Ops) Nx) dflt_dim dflt_dim in
+    let* yi := construct1 ys' (repeat (n0 Ops) Ny) dflt_dim dflt_dim in
+    Ok (mkObject2 xs' ys' f' (o_dom xi, o_dom yi) (mkState2 (o_state xi) (o_state yi) (n1 Ops))).
+
+(** Interpolation_2D(data_table, x_dim, y_dim, f_dim): rows (x, y, f) in row-major order.
+    std::sort / std::unique on the x and the y column (insertion sort: on values without NaN every
+    sorting algorithm returns the same sequence up to the sign of zeros; std::unique keeps the first
+    element of a run), size check, then the table is filled row by row and every row is compared with
+    the grid point it is stored at. *)
+Fixpoint cols3 (data : list (list T)) : res (list T * list T) :=
+  match data with
+  | [] => Ok ([], [])
+  | r :: rest =>
+      match r with
+      | [x; y; _] => let* xy := cols3 rest in Ok (x :: fst xy, y :: snd xy)
+      | _ => Exit
+      end
+  end.
+Fixpoint insert_sorted (v : T) (l : list T) : list T :=
+  match l with
+  | [] => [v]
+  | a :: r => if nltb Ops v a then v :: l else a :: insert_sorted v r
+  end.
+Definition sort_list (l : list T) : list T := fold_right insert_sorted [] l.
+Fixpoint unique_from (a : T) (l : list T) : list T :=
+  match l with
+  | [] => [a]
+  | b :: r => if neqb Ops a b then unique_from a r else a :: unique_from b r
+  end.
+Definition unique_list (l : list T) : list T := match l with [] => [] | a :: r => unique_from a r end.
+
+(** one row of f: for(i_y ...) { if(x[i_x] != data_table[i][0] || y[i_y] != data_table[i][1]) exit; f[i_x][i_y] = data_table[i][2]; i++; } *)
+Fixpoint fill_row (x : T) (ys : list T) (rows : list (list T)) : res (list T * list (list T)) :=
+  match ys with
+  | [] => Ok ([], rows)
+  | y :: ys' =>
+      match rows with
+      | [rx; ry; rf] :: rest =>
+          if nneb Ops x rx || nneb Ops y ry then Exit
+          else let* p := fill_row x ys' rest in Ok (rf :: fst p, snd p)
+      | _ => OOB
+      end
+  end.
+Fixpoint fill_table (xs ys : list T) (rows : list (list T)) : res (list (list T)) :=
+  match xs with
+  | [] => Ok []
+  | x :: xs' =>
+      let* p := fill_row x ys rows in
+      let* rest := fill_table xs' ys (snd p) in Ok (fst p :: rest)
+  end.
+Definition construct2_rows (data : list (list T)) (x_dim y_dim f_dim : T) : res object2 :=
+  let* xy := cols3 data in
+  let x := unique_list (sort_list (fst xy)) in
+  let y := unique_list (sort_list (snd xy)) in
+  if negb (Nat.eqb (length x * length y) (length data)) then Exit
+  else
+    let* f := fill_table x y data in
+    construct2 x y f x_dim y_dim f_dim.
+
+(** Interpolation_2D(): the 3x3 table of zeros on {-1,0,1}^2 *)
+Definition construct2_default : res object2 :=
+  let g := [nneg Ops (n1 Ops); n0 Ops; n1 Ops] in
+  construct2 g g (repeat (repeat (n0 Ops) 3) 3) dflt_dim dflt_dim dflt_dim.
+End Construct.
+Arguments object1 T : clear implicits.
+Arguments object2 T : clear implicits.
